@@ -308,6 +308,13 @@ func cmdCheck(args []string) int {
 		}(r)
 	}
 	wg.Wait()
+	if ld != nil {
+		for _, sc := range ps.Structural {
+			if sc == "routes" {
+				structResults = append(structResults, structuralRoutes(ld)...)
+			}
+		}
+	}
 	slRes := runStorelab(*verif, *repo, ps, *tier, work)
 	storelabResults = slRes
 	return report(*verif, *repo, ps, *tier, *seed, results, reports, genErrors, sp, start, loadS, genS, *noEvidence)
@@ -322,6 +329,7 @@ type storelabResult struct {
 }
 
 var storelabResults *storelabResult
+var structResults []StructResult
 
 // runStorelab: bounded conformance of trusted L0 functions on the real SQLite stack (DESIGN 3.9).
 func runStorelab(verif, repo string, ps *PropSpec, tier, work string) *storelabResult {
@@ -451,6 +459,17 @@ func report(verif, repo string, ps *PropSpec, tier string, seed int, results []*
 		}
 		lines = append(lines, fmt.Sprintf("VIOLATION property=%s replay=%s obligation=%s%s", ps.ID, file, name, suffix))
 	}
+	var structEv []map[string]interface{}
+	for _, sr := range structResults {
+		obligations++
+		if sr.OK {
+			discharged++
+			bySolver["structural (SSA provenance, no solver)"]++
+		} else {
+			emitViolation("structural/"+sr.Name, map[string]interface{}{"obligation": "structural/" + sr.Name, "kind": "structural", "reason": sr.Detail}, false)
+		}
+		structEv = append(structEv, map[string]interface{}{"obligation": "structural/" + sr.Name, "holds": sr.OK, "detail": sr.Detail})
+	}
 	var boundedEv []string
 	boundedEv = append(boundedEv, ps.Bounded...)
 	if sl := storelabResults; sl != nil {
@@ -558,6 +577,7 @@ func report(verif, repo string, ps *PropSpec, tier string, seed int, results []*
 			"inlined_real_bodies":      keysOf(inl),
 			"not_covered":              ps.NotCovered,
 			"bounded":                  boundedEv,
+			"structural":               structEv,
 			"known_findings_matched":   knownHits,
 			"samples":                  samples,
 			"contract_files":           relFiles(sp.Files, verif, repo),
